@@ -37,6 +37,9 @@
    broadcast over the first (bc = "row"); the sum over an empty array is 0 (Dev.CountsInMemoryOrder: read in memory order,
    written in row-major order).
 
+   Long frames: CallErrLong(n) and `TotalLaw` - the total over n positions is the sum of the per-position counts for
+   every n (Dev.BlockTailTwice: block-wise counting whose tail slice is the whole array when n is a multiple of the block).
+
    Modes:  "exh"   every v in 0 .. 2^W - 1  (W <= 12): calls b2g(v), g2b(v)
            "pairs" every pair (u, v) (W <= 6): additivity, err(u, v)
            "basis" W-bit (W = 62) one-hot, 2^k - 1, 2^k + 1, all-ones and NRand seeded vectors; err on
@@ -50,7 +53,7 @@ CONSTANTS W,       \* width in bits
           Shifts,  \* intended cascade of gray2binary
           NRand,   \* number of seeded vectors (mode "basis")
           Seed,
-          Dev      \* [G2BOnly16Bits, B2GShiftMissing, ErrCountsFirstOperand, CountsInMemoryOrder |-> BOOLEAN]
+          Dev      \* [G2BOnly16Bits, B2GShiftMissing, ErrCountsFirstOperand, CountsInMemoryOrder, BlockTailTwice |-> BOOLEAN]
 
 Idx  == 1..W
 Zero == [k \in Idx |-> 0]
@@ -129,6 +132,16 @@ CodeCount(o, bc, layout, i, j) ==
   ELSE CountAtB(o, bc, i, j)
 MatOffsets == IF Mode = "exh" THEN {} ELSE 0..2
 
+\* LONG frames: n pairs (the pairs LongU/LongV repeated cyclically); the total is the sum of the per-pair counts whatever
+\* n is.  As-is under Dev.BlockTailTwice: counted in blocks of LongBlock, the last incomplete block taken as
+\* flat[-remainder:] - which is the WHOLE array when the remainder is 0.
+LongBlock == 4
+LongU(i) == Vec(1 + (i % 5))
+LongV(i) == Vec(7 + (i % 3))
+LongTotal(n) == FoldSet(LAMBDA i, acc : acc + Ham(LongU(i), LongV(i)), 0, 1..n)
+LongCode(n) == IF Dev.BlockTailTwice /\ n > LongBlock /\ n % LongBlock = 0 THEN 2 * LongTotal(n) ELSE LongTotal(n)
+LongLens == IF Mode = "exh" THEN {} ELSE 1..13
+
 (* ------------------------------------- machine ------------------------------------------ *)
 VARIABLES pc,    \* 0 idle, 1..Len(Sh) next cascade step, -1 returned
           call,  \* [op, u, v]
@@ -159,6 +172,11 @@ CallErrMat(o, bc, layout, axis) ==
   /\ ret' = AxisSums([i \in 1..2 |-> [j \in 1..3 |-> CodeCount(o, bc, layout, i, j)]], axis)
   /\ pc' = -1 /\ UNCHANGED t
 
+CallErrLong(n) ==
+  /\ pc = 0
+  /\ call' = [op |-> "errlong", u |-> Zero, v |-> Zero, n |-> n]
+  /\ ret' = LongCode(n) /\ pc' = -1 /\ UNCHANGED t
+
 \* the guard pc = 0 stands outside the quantifiers so that TLC does not enumerate the domain in
 \* every cascade state
 Calls == /\ pc = 0
@@ -166,7 +184,7 @@ Calls == /\ pc = 0
             \/ \E p \in PairDomain : CallErr(p[1], p[2])
             \/ \E o \in MatOffsets : \E bc \in {"full", "row"} : \E layout \in {"C", "F"} : \E axis \in {-1, 0, 1} :
                   CallErrMat(o, bc, layout, axis)
-Next == Calls \/ Step \/ Return
+Next == Calls \/ (pc = 0 /\ \E n \in LongLens : CallErrLong(n)) \/ Step \/ Return
 
 (* ------------------------------------ properties ---------------------------------------- *)
 Done(op) == pc = -1 /\ call.op = op
@@ -199,6 +217,9 @@ HammingLaw == Done("err") => ret = Ham(call.u, call.v)
 AxisLaw == Done("errmat") =>
   ret = AxisSums([i \in 1..2 |-> [j \in 1..3 |-> CountAtB(call.o, call.bc, i, j)]], call.axis)
 
+\* a frame of any length: the total is the sum of the per-position counts (no block structure shows)
+TotalLaw == Done("errlong") => ret = LongTotal(call.n)
+
 \* the count does not depend on the order of the two operands
 SymmetryLaw == Done("err") => ret = ErrCode(call.v, call.u)
 
@@ -213,14 +234,15 @@ Additive ==
 
 TypeOK == /\ pc \in -1..(Len(Sh) + 1)
           /\ t \in [Idx -> {0, 1}]
-          /\ call.op \in {"none", "b2g", "g2b", "err", "errmat"}
+          /\ call.op \in {"none", "b2g", "g2b", "err", "errmat", "errlong"}
 
 (* ------------------------------------- emission ----------------------------------------- *)
 \* widths that fit a TLC integer are printed as integers, wider vectors as sequences of bits (least
 \* significant first; Python rebuilds the int)
 Enc(x) == IF W <= 30 THEN ToInt(x) ELSE x
 EncMat(m) == [i \in 1..2 |-> [j \in 1..3 |-> Enc(m[i][j])]]
-Emit == IF pc' = -1 /\ call'.op = "errmat"
+Emit == IF pc' = -1 /\ call'.op = "errlong" THEN TRUE
+        ELSE IF pc' = -1 /\ call'.op = "errmat"
         THEN EmitCase([op |-> "errmat", w |-> W, u |-> EncMat(MatU(call'.o)), v |-> EncMat(MatV(call'.o)),
                        bc |-> call'.bc, layout |-> call'.layout, axis |-> call'.axis, ret |-> ret'])
         ELSE IF pc' = -1
